@@ -296,6 +296,12 @@ func runJobs(l *symex.Loaded, hs []*harnessFile, jobs []job, workers int, cfg sy
 					if v, ok := j.Spec.Opts["unwind"]; ok {
 						c.Unwind, _ = strconv.Atoi(v)
 					}
+					if v, ok := j.Spec.Opts["arith"]; ok {
+						c.ArithFirst = v != "0"
+					}
+					if v, ok := j.Spec.Opts["fires"]; ok {
+						c.MaxTimerFires, _ = strconv.Atoi(v)
+					}
 					if v, ok := j.Spec.Opts["preempt"]; ok {
 						c.PreemptBound, _ = strconv.Atoi(v)
 					}
@@ -433,6 +439,11 @@ func cmdCase(argv []string) int {
 	cfg.Solver = *solver
 	cfg.Unwind = *unwind
 	cfg.PreemptBound = *preempt
+	if b := os.Getenv("VERIF_CASE_BUDGET"); b != "" {
+		if sec, err := strconv.Atoi(b); err == nil {
+			cfg.CaseBudget = time.Duration(sec) * time.Second
+		}
+	}
 	if *choices != "" {
 		for _, c := range strings.Split(*choices, ",") {
 			v, _ := strconv.Atoi(strings.TrimSpace(c))
@@ -448,7 +459,7 @@ func cmdCase(argv []string) int {
 		rep := res[0].Report
 		if rep != nil {
 			fmt.Printf("paths=%d infeasible=%d decisions=%d steps=%d asserts(sym=%d conc=%d) queries(sat=%d unsat=%d unknown=%d fallbacks=%d, %.2fs max %.2fs) wall=%.2fs\n",
-				rep.Paths, rep.Infeasible, rep.Decisions, rep.Steps, rep.AssertsSym, rep.AssertsConc, rep.Queries.Sat, rep.Queries.Unsat, rep.Queries.Unknown, rep.Queries.Fallbacks, rep.Queries.Time.Seconds(), rep.Queries.MaxQuery.Seconds(), rep.WallS)
+				rep.Paths, rep.Infeasible, rep.Decisions, rep.Steps, rep.AssertsSym, rep.AssertsConc, rep.Queries.Sat, rep.Queries.Unsat, rep.Queries.Unknown, rep.Queries.Fallbacks*1000+rep.Queries.Cvc5, rep.Queries.Time.Seconds(), rep.Queries.MaxQuery.Seconds(), rep.WallS)
 			var labels []string
 			for k := range rep.Discharged {
 				labels = append(labels, k)
